@@ -219,10 +219,6 @@ class Theory:
                                              z3.Not(self.isc('bool')(self.mk_int(iv))), self.mk_int(iv) != self.NoneV),
                                 patterns=[self.mk_int(iv)]))
             ax.append(z3.ForAll([v], self.vlen(v) >= 0, patterns=[self.vlen(v)]))
-        # hash(x) is modelled as a constructor (injective): a postcondition "result is the hash of exactly this tuple"
-        # then pins the tuple down; no obligation relies on hash collisions
-        hv = z3.Const('hv', V)
-        ax.append(z3.ForAll([hv], self.fn('unhash', V, V)(self.fn('hash_of', V, V)(hv)) == hv, patterns=[self.fn('hash_of', V, V)(hv)]))
         # singletons and literals
         ax.append(self.isc('NoneType')(self.NoneV))
         ax.append(z3.ForAll([v], z3.Implies(self.isc('NoneType')(v), v == self.NoneV)))
